@@ -25,7 +25,7 @@ ASSUMPTIONS = [
 TRUSTED = ["executable MD5 in Lean (ArvVerif/Base/MD5.lean), compared with Go crypto/md5 through every put case "
            "(rendezvous order, honest-store answers)",
            "the driver learns that putReplicas is about to wait from its 'Replicas remaining to write' debug "
-           "message (fallback: quiescence timing)"]
+           "message (recognised by argument shape; fallback: goroutine states from runtime.Stack, no timing)"]
 
 DRIVERS = {"kc": {"kind": "gotest", "pkg": "sdk/go/keepclient", "test": "TestVerifC11", "min_chunk": 100}}
 
@@ -150,7 +150,8 @@ def _picks(rng):
 
 def gen_random_put(rng, big_ok=False):
     """big_ok: PutHR may be called with a declared size <= 0 or == BLOCKSIZE, which makes it
-    allocate a 64 MiB buffer (kept rare: it dominates the run time otherwise)"""
+    allocate a 64 MiB buffer (kept very rare: in this sandbox first-touch page faults are so slow
+    that such a case can take from seconds to minutes)"""
     odd = rng.random() < 0.15
     nw = rng.choice([1, 2, 3, 3, 4, 5]) if not odd or rng.random() < 0.7 else 0
     nro = rng.choice([0, 0, 1, 2])
@@ -300,12 +301,12 @@ def generate(rng, tier):
     cases = []
     if tier == "quick":
         cases += gen_exhaustive(rng, 2, 1)
-        cases += [gen_random_put(rng, i % 300 == 7) for i in range(3000)]
+        cases += [gen_random_put(rng, i % 750 == 7) for i in range(3000)]
         cases += [gen_upl(rng) for _ in range(600)]
         cases += [gen_load(rng) for _ in range(300)]
     else:
         cases += gen_exhaustive(rng, 3, 2, sample=0.25)
-        cases += [gen_random_put(rng, i % 500 == 7) for i in range(40000)]
+        cases += [gen_random_put(rng, i % 3300 == 7) for i in range(40000)]
         cases += [gen_upl(rng) for _ in range(6000)]
         cases += [gen_load(rng) for _ in range(3000)]
     return cases
